@@ -62,4 +62,23 @@ pub fn run(cx: &mut Ctx) {
             }
         } }
     });
+    cx.check("annealer_never_widens", |cb| {
+        use quizx::rankwidth::annealer::RankwidthAnnealer;
+        for n in 6..=11usize { for seed in 0..150u64 {
+            let g = make_graph(n, seed * 7 + n as u64);
+            let v = guard(|| {
+                let mut r0 = SmallRng::seed_from_u64(seed ^ 0xABCD);
+                let mut start = DecompTree::random_decomp(&g, &mut r0);
+                let w0 = start.rankwidth(&g);
+                let mut ann = RankwidthAnnealer::new_with_decomp(g.clone(), start.clone(), SmallRng::seed_from_u64(seed));
+                ann.set_iterations(300);
+                let mut res = ann.run();
+                valid(&res, &g)?;
+                let w1 = { res.clear_ranks(); res.rankwidth(&g) };
+                if w1 > w0 { return Err(format!("the annealer returned width {} from a start of width {}", w1, w0)); }
+                Ok(())
+            }).and_then(|r| r);
+            cb(&|| format!("n={} graph/rng seed {}", n, seed), v);
+        } }
+    });
 }
